@@ -1,8 +1,11 @@
 import I2P.Driver.DataOps
 import I2P.Driver.KacOps
+import I2P.Driver.StructOps
+import I2P.Driver.TimeOps
+import I2P.Driver.BaseOps
 open I2P.Driver
 
-def allOps : List (String × Op) := dataOps ++ kacOps
+def allOps : List (String × Op) := dataOps ++ kacOps ++ structOps ++ timeOps ++ baseOps
 
 def step (line : String) : String :=
   match line.trimAscii.toString.splitOn " " with
